@@ -551,6 +551,10 @@ func Main(args []string) {
 		concMain(w, args[1:])
 		return
 	}
+	if len(args) > 0 && args[0] == "concv" {
+		concvMain(w, args[1:])
+		return
+	}
 	sc := bufio.NewScanner(os.Stdin)
 	sc.Buffer(make([]byte, 1<<20), 1<<26)
 	for sc.Scan() {
